@@ -522,6 +522,8 @@ def directed():
         ("susp", [('w', ('ground', f(X, Y)), 1, []), ('u', X, Y), ('u', X, a)]),
         ("susp", [('w', ('or', ('nonvar', X), ('nonvar', Y)), 1, []), ('u', f(X, Y), f(a, b))]),
         ("susp", [('w', ('and', ('nonvar', X), ('ground', Y)), 1, []), ('u', X, S('g', Pv)), ('u', Y, S('g', Pv)), ('u', Pv, a)]),
+        ("susp", [('w', ('and', ('ground', Pv), ('ground', X)), 1, []), ('u', X, S('g', Pv)), ('u', Pv, a)]),
+        ("mixed", [('fz', 'Z', 1, [('u', f(X, X), f(Z, b))]), ('u', X, S('g', b)), ('d', f(S('g', V('Q')), b), f(Z, V('Q')))]),
         ("mixed", [('fz', 'Y', 1, []), ('d', X, Y), ('u', X, a), ('u', Y, b)]),
         ("mixed", [('fz', 'X', 1, [('d', Y, a)]), ('u', Y, a), ('u', X, b)]),
         ("mixed", [('w', ('ground', f(X, Y)), 1, [('u', Z, a)]), ('d', Z, a), ('u', X, a), ('u', Y, b)]),
@@ -602,7 +604,8 @@ def judge(c, impl, model):
             if dup or extra:
                 who = sorted({ids.get(i, '?') for i in (dup or extra)})
                 who = "+".join({'fz': 'freeze', 'w': 'when'}.get(w, w) for w in who)
-                probs.append(("violation", {"class": "log-extra-run", "goal": who, "dif": has_dif},
+                probs.append(("violation", {"class": "log-extra-run", "component": "log", "goal": who, "dif": has_dif,
+                                            "kinds": "+".join(sorted(kinds_in(ops)))},
                               "?- %s.  runs goal(s) %s more often than once / than their condition allows: log %r (model log %r)" % (
                                   text(k), dup or extra, list(I[k][4]), list(M[k][4]) if M[k][0] == "ok" else None)))
                 break
@@ -650,13 +653,13 @@ def run(ctx):
         limit = 120
         for k, (fam, ops) in enumerate(directed()):
             cases.append(make_case("d%d" % k, ops, perms_of(rng, len(ops), limit), fam))
-        nrand = 170 if tier == "quick" else 2600
+        nrand = 130 if tier == "quick" else 1600
         for k in range(nrand):
             fam = rng.choice(["dif", "susp", "mixed", "mixed"])
             n = rng.choice([2, 3, 3, 4, 4, 4, 5] if tier == "quick" else [2, 3, 3, 4, 4, 4, 5, 5])
             ops = gen_script(rng, n, fam)
             cases.append(make_case("r%d" % k, ops, perms_of(rng, n, 40 if tier == "quick" else 120), fam))
-        nlong = 25 if tier == "quick" else 500
+        nlong = 20 if tier == "quick" else 300
         for k in range(nlong):
             n = rng.choice([6, 7, 8])
             ops = gen_script(rng, n, rng.choice(["dif", "susp", "mixed"]))
